@@ -186,7 +186,7 @@ class Check:
         """A generated (translator) or correspondence obligation."""
         self.obligations.append({"name": name, "ok": ok, "detail": detail})
         if not ok:
-            self.broken.append(f"{name}: {detail}"[:600])
+            self.broken.append(f"{name}: {detail}"[:6000])
 
     # ---------- findings ----------
     def fail_input(self, what: str, replay: dict, finding_key: str | None = None):
